@@ -122,6 +122,8 @@ def run(tier, seed):
             coeff = rng.choice(["2", "3", "10", "0.5", "2.5", "1e3", "3/2", "1/4"])
             wantf *= float(Fraction(coeff)) if "e" not in coeff else float(coeff)
             parts.append(coeff)
+        arith = []  # the same compound built by unit arithmetic (no coefficient)
+        wantf_units = 1.0
         for _ in range(nf):
             b = rng.choice(lutkeys)
             p = rng.choice(pre_keys) if (LUT[b][4] and rng.random() < 0.4) else ""
@@ -130,10 +132,12 @@ def run(tier, seed):
             sc = (PRE[p][0] if p else 1.0) * LUT[b][0]
             try:
                 wantf *= sc ** float(e)
+                wantf_units *= sc ** float(e)
             except OverflowError:
-                wantf = float("inf")
+                wantf = wantf_units = float("inf")
             wdim *= LUT[b][1] ** sympy.Rational(e.numerator, e.denominator)
             name = p + b
+            arith.append((name, e))
             style = rng.random()
             if e == 1 and style < 0.5:
                 parts.append(name)
@@ -168,6 +172,23 @@ def run(tier, seed):
         if not (math.isclose(u.base_value, wantf, rel_tol=1e-11) and u.dimensions == wdim):
             chk.fail("compound-scale", f"Unit({s!r}): scale {u.base_value!r} / dimension differ from the product of the constituents ({wantf!r})",
                      {"python": snippet(f"u = Unit({s!r})\nassert math.isclose(u.base_value, {wantf!r}, rel_tol=1e-11), (u.base_value, {wantf!r})\n")})
+        # arithmetic route: Unit objects multiplied / divided / raised must give the product of the constituents too
+        try:
+            ua = None
+            for j, (nm, e) in enumerate(arith):
+                f = Unit(nm)
+                if e < 0 and j > 0 and rng.random() < 0.5:
+                    ua = ua / f ** sympy.Rational(-e.numerator, e.denominator)
+                    continue
+                f = f if e == 1 else f ** sympy.Rational(e.numerator, e.denominator)
+                ua = f if ua is None else ua * f
+            chk.count("compound-arith")
+            if not (math.isclose(ua.base_value, wantf_units, rel_tol=1e-11) and ua.dimensions == wdim):
+                expr_py = " * ".join(f"Unit({nm!r})**sympy.Rational({e.numerator},{e.denominator})" for nm, e in arith)
+                chk.fail("compound-arith-scale", f"unit arithmetic {arith}: scale {ua.base_value!r} differs from the product of the constituents ({wantf_units!r})",
+                         {"python": snippet(f"u = {expr_py}\nassert math.isclose(u.base_value, {wantf_units!r}, rel_tol=1e-11), (u.base_value, {wantf_units!r})\n")})
+        except Exception as e_:  # noqa: BLE001  (offset / logarithmic guards refuse: C05's subject)
+            chk.count("compound-arith-refused:" + core.exc_name(e_))
         try:
             c, fac = gen.expr_wire(u.expr)
             lines.append(f"unit\t0\t{c}\t{fac}")
@@ -202,6 +223,78 @@ def run(tier, seed):
             if not math.isclose(got, x * sa / sb, rel_tol=1e-12):
                 chk.fail("to-ratio", f"x.to(u2) != x*scale(u1)/scale(u2) for {pa + a}->{pb + b}",
                          {"python": snippet(f"got = float(unyt_quantity({x!r}, {pa + a!r}).to({pb + b!r}).d)\nassert math.isclose(got, {x * sa / sb!r}, rel_tol=1e-12), got\n")})
+
+    # ------------------------------------------------------------------ look-up histories in fresh registries
+    # prefix*base must not depend on which other names were resolved before (the derived entries
+    # written back into the registry's table must not change any later reading); the model's
+    # lookupUnitSymbol (with its write-back) is run on the same sequences.
+    from unyt.unit_registry import UnitRegistry
+
+    def independent(name):
+        # table symbol, else the (prefix, prefixable base) splits against the PRISTINE table
+        if name in LUT:
+            return LUT[name][0]
+        vals = {PRE[p][0] * LUT[name[len(p):]][0] for p in PRE if name.startswith(p) and name[len(p):] in LUT and LUT[name[len(p):]][4]}
+        return vals.pop() if len(vals) == 1 else None
+
+    prefixable = [k for k in LUT if LUT[k][4]]
+    nhist = 12 if tier == "quick" else 200
+    hist_lines, hist_expect = [], []
+    for h in range(nhist):
+        reg = UnitRegistry()
+        hist_lines.append("reg.fresh")
+        hist_expect.append(None)
+        bases = rng.sample(prefixable, 3)
+        seq = [p + b for b in bases for p in pre_keys]
+        rng.shuffle(seq)
+        # double prefixes and prefixes on non-prefixable rows must stay unknown whatever was looked up before
+        extra = [rng.choice(pre_keys) + rng.choice(pre_keys) + rng.choice(bases) for _ in range(6)]
+        extra += [rng.choice(pre_keys) + rng.choice([k for k in LUT if not LUT[k][4]]) for _ in range(4)]
+        seq += extra
+        done = []
+        for name in seq:
+            want = independent(name)
+            chk.case(("hist", name, tuple(done[-2:])))
+            chk.count("history-lookup")
+            try:
+                u = Unit(name, registry=reg)
+                got = u.base_value
+            except Exception as e:  # noqa: BLE001
+                got = None
+                u = None
+            # names the alias table rewrites (e.g. 'dam' is not an alias, but 'min' is) are C14's subject: only judge
+            # strings the parser hands to the registry unchanged
+            if INV.get(name, name) != name:
+                chk.count("history-alias-skipped")
+                done.append(name)
+                continue
+            pre_snip = "from unyt.unit_registry import UnitRegistry\nreg = UnitRegistry()\n" + "".join(
+                f"try:\n    Unit({d!r}, registry=reg)\nexcept Exception:\n    pass\n" for d in done)
+            if want is None and got is not None:
+                chk.fail("history-accepts", f"after looking up {done[-3:]} a fresh registry accepts {name!r}, which is neither a table symbol nor prefix+prefixable unit",
+                         {"python": snippet(pre_snip + f"try:\n    u = Unit({name!r}, registry=reg)\nexcept Exception:\n    u = None\nassert u is None, (u, u.base_value)\n")})
+            elif want is not None and (got is None or not math.isclose(got, want, rel_tol=1e-14)):
+                chk.fail("history-scale", f"after looking up {done[-3:]} Unit({name!r}) in a fresh registry has scale {got!r}, expected prefix*base {want!r}",
+                         {"python": snippet(pre_snip + f"u = Unit({name!r}, registry=reg)\nassert math.isclose(u.base_value, {want!r}, rel_tol=1e-14), u.base_value\n")})
+            hist_lines.append(f"lookup\t{h + 1}\t{name}")
+            ent = reg.lut.get(name)
+            hist_expect.append((name, ent))
+            done.append(name)
+    try:
+        hrep = model.ask(hist_lines)
+    except Exception as e:  # noqa: BLE001
+        hrep = []
+        chk.disagree("driver", repr(e))
+    for rep_, exp in zip(hrep, hist_expect):
+        if exp is None:
+            continue
+        name, ent = exp
+        chk.count("model:lookup")
+        if ent is None:
+            if rep_[0] != "err":
+                chk.disagree("lookup", f"{name}: model {rep_} implementation: unknown")
+        elif rep_ != ["ok", str(core.f2b(ent[0])), str(core.f2b(ent[2])), gen.dim_vec(ent[1]), "1" if ent[4] else "0"]:
+            chk.disagree("lookup", f"{name}: model {rep_} implementation table entry ({ent[0]}, {ent[2]}, prefixable={ent[4]})")
 
     # ------------------------------------------------------------------ model correspondence
     try:
